@@ -83,7 +83,8 @@ type otrNet struct {
 	// secret to answer with when SMPSecretNeeded shows up (nil: do not answer)
 	answer   [2][]byte
 	question [2]string
-	maxFrag  [2]int // largest message produced by side i while FragmentSize was in force
+	maxFrag  [2]int      // largest message produced by side i while FragmentSize was in force
+	oldMsgs  [2][][]byte // genuine, already delivered data messages towards side d (for replays)
 }
 
 type otrViolation struct{ what string }
@@ -417,7 +418,7 @@ func c47History(rt *rapid.T, c *ev.Collector, f33 bool) (classes []string, key s
 	nsteps := rapid.IntRange(1, 7).Draw(rt, "nsteps")
 	ended := false
 	for st := 0; st < nsteps && !ended; st++ {
-		step := rapid.SampledFrom([]string{"msgs", "msgs", "msgs", "smp", "smp", "tamper", "tamper", "rekey", "end", "inject"}).Draw(rt, "step")
+		step := rapid.SampledFrom([]string{"msgs", "msgs", "msgs", "smp", "smp", "tamper", "tamper", "hostile", "hostile", "rekey", "end", "inject"}).Draw(rt, "step")
 		switch step {
 		case "msgs":
 			// a burst of messages in both directions, interleaved by the scheduler
@@ -636,6 +637,99 @@ func c47History(rt *rapid.T, c *ev.Collector, f33 bool) (classes []string, key s
 			noErrors("the message after a tampered one")
 			hist = append(hist, "tamper:"+mode)
 			key += "|t:" + mode
+		case "hostile":
+			// k hostile deliveries into the SAME live conversations, interleaved with genuine
+			// traffic; afterwards at least six further round trips (which rotate the keys) must
+			// still be delivered unchanged in both directions
+			k := rapid.IntRange(0, 8).Draw(rt, "nhostile")
+			n.pump()
+			var kinds []string
+			for i := 0; i < k; i++ {
+				from := rapid.IntRange(0, 1).Draw(rt, "hfrom")
+				to := 1 - from
+				kind := rapid.SampledFrom([]string{"key-id-bytes", "key-id-bytes", "header-bit", "counter", "flags", "replay-old", "retired-epoch", "truncate"}).Draw(rt, "hkind")
+				// a genuine message of this direction, unfragmented, to derive the forgery from
+				txt, _ := otrText(rt, "htxt")
+				oldFS := n.side[from].conv.FragmentSize
+				n.side[from].conv.FragmentSize = 0
+				var out [][]byte
+				var err error
+				if pn := guard(func() { out, err = n.side[from].conv.Send(txt) }); pn != nil || err != nil || len(out) != 1 {
+					n.fail("Send for the hostile step: %v %v (%d messages)", pn, err, len(out))
+				}
+				n.side[from].conv.FragmentSize = oldFS
+				raw, authEnd, ok := dataMessageMACed(out[0])
+				if !ok {
+					n.fail("Send produced something that is not a version 2 data message: %.60q", out[0])
+				}
+				var forged []byte
+				m := append([]byte{}, raw...)
+				switch kind {
+				case "key-id-bytes": // sender / recipient key ids: bytes 4..11
+					pos := rapid.IntRange(4, 11).Draw(rt, "hpos")
+					m[pos] ^= byte(1 << uint(rapid.IntRange(0, 7).Draw(rt, "hbit")))
+					forged = refpgp.OTRMsg(m)
+				case "header-bit":
+					pos := rapid.IntRange(0, 11).Draw(rt, "hpos")
+					m[pos] ^= byte(1 << uint(rapid.IntRange(0, 7).Draw(rt, "hbit")))
+					forged = refpgp.OTRMsg(m)
+				case "flags":
+					m[3] ^= byte(rapid.IntRange(1, 255).Draw(rt, "hflags"))
+					forged = refpgp.OTRMsg(m)
+				case "counter":
+					// the 8 counter bytes sit right in front of the encrypted DATA field; find them from the end of the MPI
+					l := int(raw[12])<<24 | int(raw[13])<<16 | int(raw[14])<<8 | int(raw[15])
+					pos := 16 + l + rapid.IntRange(0, 7).Draw(rt, "hctr")
+					if pos < authEnd {
+						m[pos] ^= 0x80
+					}
+					forged = refpgp.OTRMsg(m)
+				case "truncate":
+					forged = refpgp.OTRMsg(raw[:rapid.IntRange(3, len(raw)-1).Draw(rt, "hcut")])
+				case "replay-old", "retired-epoch":
+					old := n.oldMsgs[to]
+					if len(old) == 0 {
+						forged = nil
+					} else if kind == "retired-epoch" {
+						forged = old[0] // the oldest one this side has seen: several key rotations ago
+					} else {
+						forged = old[rapid.IntRange(0, len(old)-1).Draw(rt, "hold")]
+					}
+				}
+				before := len(n.side[to].delivered)
+				n.side[to].errs = nil
+				if forged != nil {
+					n.receive(to, forged)
+					n.pump()
+					if len(n.side[to].delivered) != before {
+						n.fail("hostile delivery (%s) changed the delivered text stream: %.40q", kind, n.side[to].delivered[len(n.side[to].delivered)-1])
+					}
+				}
+				n.side[to].errs = nil
+				n.side[to].plain = nil
+				// the genuine message itself still arrives
+				n.receive(to, out[0])
+				n.pump()
+				expect[to] = append(expect[to], txt)
+				n.oldMsgs[to] = append(n.oldMsgs[to], out[0])
+				checkDelivered()
+				noErrors("the genuine message right after a hostile delivery (" + kind + ")")
+				kinds = append(kinds, kind)
+				classes = append(classes, "hostile:"+kind+":rejected-then-continue")
+			}
+			for i := 0; i < 6; i++ {
+				for _, from := range []int{0, 1} {
+					txt, _ := otrText(rt, "rtxt")
+					n.send(from, txt)
+					expect[1-from] = append(expect[1-from], txt)
+					n.pump()
+				}
+			}
+			checkDelivered()
+			noErrors("the six round trips after " + fmt.Sprint(k) + " hostile deliveries " + fmt.Sprint(kinds))
+			classes = append(classes, fmt.Sprintf("hostile-deliveries=%d", k))
+			hist = append(hist, fmt.Sprintf("hostile:%v", kinds))
+			key += fmt.Sprintf("|h%d:%s", k, strings.Join(dedup(kinds), ","))
 		case "rekey":
 			who := rapid.SampledFrom([]string{"A", "B", "both"}).Draw(rt, "rekeywho")
 			ake(who)
@@ -930,6 +1024,32 @@ func TestC47(t *testing.T) {
 			i := i
 			probe(func(authEnd int) int { return authEnd - 20 - 1 - i*7 }, fmt.Sprintf("ciphertext byte -%d", 1+i*7))
 		}
+		// the conversation that has seen all these forgeries still works in both directions,
+		// across key rotations
+		for i := 0; i < 8; i++ {
+			for _, dir := range []struct {
+				from, to *otr.Conversation
+				name     string
+			}{{a, b, "A->B"}, {b, a, "B->A"}} {
+				txt := []byte(fmt.Sprintf("round trip %d %s", i, dir.name))
+				out, err := dir.from.Send(txt)
+				var got []byte
+				var rerr error
+				for _, m := range out {
+					var g []byte
+					g, _, _, _, rerr = dir.to.Receive(m)
+					if len(g) > 0 {
+						got = g
+					}
+				}
+				if err != nil || rerr != nil || !bytes.Equal(got, txt) {
+					what := fmt.Sprintf("after %d rejected forgeries a genuine message (%s, round trip %d) is no longer delivered: send err %v, receive err %v", total, dir.name, i, err, rerr)
+					c.Violation(what, "")
+					t.Fatalf("VF-VIOLATION: property=C47 %s", what)
+				}
+			}
+		}
+		c.Case(true, "exh|continue", "hostile:exhaustive-probes:rejected-then-continue")
 		c.Exhaustive("one flipped bit in each MAC byte, each header byte and sampled ciphertext bytes of a data message", total)
 	}
 
@@ -961,7 +1081,7 @@ func TestC47(t *testing.T) {
 			c.Excluded()
 			return
 		}
-		nontriv := strings.Contains(key, "|smp") || strings.Contains(key, "|t:") || strings.Contains(key, "ake=both") || strings.Contains(key, "|rk") || !strings.HasPrefix(key, "f0/0|r[false false]")
+		nontriv := strings.Contains(key, "|smp") || strings.Contains(key, "|t:") || strings.Contains(key, "|h") || strings.Contains(key, "ake=both") || strings.Contains(key, "|rk") || !strings.HasPrefix(key, "f0/0|r[false false]")
 		c.Case(nontriv, key, dedup(classes)...)
 		if c.WantSample() {
 			c.Sample(map[string]any{"history": key, "classes": dedup(classes)})
